@@ -28,3 +28,14 @@ Theorem C06_losses_formula : forall soc cap rel fr fa, cap <> 0 ->
   @apply_losses R RNum soc cap rel fr fa = Ok (Rmax (soc * (1 - rel / 100) - fr / 100 - fa / cap) 0).
 Proof. exact losses_spec. Qed.
 Print Assumptions C06_losses_formula.
+
+(* booking a station's power at its connector (GridConnector.add_load, used by every strategy) raises the connector total
+   by exactly the booked power, whether or not the station already had an entry; the returned command is the station's
+   new total *)
+From Coq Require Import String.
+From SV Require Import Strat StratSum.
+Theorem C06_add_load_total : forall (g:@gcon R) k v,
+  @current_load R RNum (fst (@add_load R RNum g k v)) = @current_load R RNum g + v /\
+  snd (@add_load R RNum g k v) = match Strat.lookup k (gc_loads g) with Some old => old + v | None => v end.
+Proof. intros. split; [apply add_load_total|apply add_load_value]. Qed.
+Print Assumptions C06_add_load_total.
